@@ -38,6 +38,25 @@ DATASETS = [
     {"X": [[0.1, 0.2, 0.7], [0.1, 0.2, 0.7], [0.4, 0.4, 0.2], [0.3, 0.3, 0.4], [0.8, 0.1, 0.1]],
      "Y": [1, 0, 1, 0, 0], "Q": [[0.3, 0.3, 0.4], [0.2, 0.5, 0.3], [0.8, 0.1, 0.1]]},
 ]
+
+
+def _twins():
+    """24-dimensional samples in pairs whose members hold the same coordinates in another order (one per
+    class), handed over in Fortran order; queries with all coordinates equal are then equidistant, in exact
+    arithmetic, from both members of a pair: whatever rounding decides must decide the same way for the
+    original (rows are strided views) and for the loaded copy (contiguous rows)."""
+    rows, labels = [], []
+    for i in range(6):
+        base = [((i * 24 + f + 1) * 0.6180339887498949) % 1.0 + 0.05 * i for f in range(24)]
+        twin = [base[(f * 5 + 3) % 24] for f in range(24)]
+        rows += [base, twin]
+        labels += [0, 1]
+    qs = [[0.02 * t] * 24 for t in range(70)]
+    return {"X": rows, "Y": labels, "Q": qs, "layout": "F"}
+
+
+DATASETS.append(_twins())
+N_MAIN = 2          # the sequence families run on the first two datasets; the third has its own shards
 PRE_QUICK = ["log_squared_euclidean", "euclidean", "canberra", "kullback_leibler", "jaccard",
              "chord", "hamming", "gaussian"]
 OPS = ["save", "load", "predict_orig", "predict_loaded", "save_loaded"]
@@ -72,6 +91,9 @@ def plan(tier, seed):
             shards.append(("seq", kind, mt, "features", 3, "recv_pre"))
     for kind in KINDS:
         shards.append(("names", kind))
+    for kind in KINDS:
+        for mt in ("log_squared_euclidean", "squared_euclidean", "euclidean", "manhattan"):
+            shards.append(("twins", kind, mt))
     # longer histories (save / mutate by predicting / save again to the same path / load ...)
     for kind in KINDS:
         for mt in (["log_squared_euclidean"] if tier == "quick" else ["log_squared_euclidean", "canberra", "euclidean"]):
@@ -97,6 +119,8 @@ def construct(kind, metric, pre_path=None):
 def fit_original(kind, metric, mode, ds, tmpdir, seed):
     import opfython.math.general as g
     X = np.array(ds["X"], dtype=float)
+    if ds.get("layout") == "F":
+        X = np.asfortranarray(X)
     Y = np.array(ds["Y"], dtype=int)
     n = len(X)
     pre_path = None
@@ -388,12 +412,33 @@ def run(shard, seed):
         res.outcome(shard)
         res.sample({"kind": shard[1], "metric": shard[2], "seq": ["save", "load-in-new-interpreter", "predict"]}, 1)
         return res
+    if shard[0] == "twins":
+        _, kind, metric = shard
+        di = len(DATASETS) - 1
+        for seq in (["save", "load", "predict_loaded"], ["predict_orig", "save", "load", "predict_loaded"]):
+            try:
+                with horizon(120.0):
+                    p, sym = run_sequence(kind, metric, "features", di, seq, seed, res)
+            except Horizon as hz:
+                p, sym = str(hz), "no termination"
+            res.evaluations += 1
+            res.traces += 1
+            res.states += 1
+            res.nontrivial += 1
+            if p:
+                res.violations.append(viol({"kind": kind, "metric": metric, "mode": "features",
+                                            "dataset": di, "seq": seq, "seed": seed, "receiver": None}, p, sym))
+                break
+        res.outcome(shard)
+        res.sample({"kind": kind, "metric": metric, "dataset": "24-d permutation twins, Fortran order",
+                    "seq": ["save", "load", "predict_loaded"]}, 1)
+        return res
     _, kind, metric, mode, depth = shard[:5]
     receiver = shard[5] if len(shard) > 5 else None
     seqs = sequences(depth, PRE_OPS if mode == "pre" else OPS)
     if receiver:
         seqs = [q for q in seqs if "load" in q]
-    for di in range(len(DATASETS)):
+    for di in range(N_MAIN):
         for seq in seqs:
             try:
                 with horizon(60.0):
